@@ -938,7 +938,9 @@ where
             ents.push((None, f.clone()));
         }
     }
-    let null_entry = m & 1 != 0;
+    // a null dictionary entry makes the array `is_nullable` even when unreferenced, which list
+    // constructors reject for non-nullable item fields: only use it when the data has nulls
+    let null_entry = m & 1 != 0 && vals.iter().any(|v| matches!(v, V::N));
     if null_entry {
         ents.insert(ents.len() / 2, (None, V::N));
     }
@@ -1888,8 +1890,33 @@ fn gen_type(rng: &mut Rng, depth: u32) -> DataType {
     }
 }
 
+/// Types on which arrow-rs itself fails the round trip (genuine findings of this check, reported
+/// with exact case lines in props/C05.json `findings`).  They are left out of the default stream so
+/// that the rest of the space is searched; `C05_KNOWN=1` puts them back.
+///  * FixedSizeBinary(0): `ArrowWriter::write` panics (`chunks(0)`, arrow_writer/mod.rs)
+///  * Decimal32(1, s): schema conversion picks INT64 for precision 1, the writer then refuses
+///  * Dictionary values Utf8View / BinaryView: writer panics (byte_array.rs unreachable!)
+///  * Dictionary values Float16 / Interval / Decimal with precision > 18: file is written, reader errors
+///  * Dictionary values Boolean: reader panics (primitive_array.rs unreachable!)
+///  * Dictionary values FixedSizeBinary(n): reader panics when a page is not dictionary encoded
+fn known_defect(dt: &DataType) -> bool {
+    match dt {
+        DataType::FixedSizeBinary(0) => true,
+        DataType::Decimal32(1, _) => true,
+        DataType::Dictionary(_, v) => match v.as_ref() {
+            DataType::Utf8View | DataType::BinaryView | DataType::Float16 | DataType::Interval(_) | DataType::Boolean | DataType::FixedSizeBinary(_) => true,
+            DataType::Decimal32(p, _) | DataType::Decimal64(p, _) | DataType::Decimal128(p, _) | DataType::Decimal256(p, _) => *p > 18 || known_defect(v),
+            v => known_defect(v),
+        },
+        _ => false,
+    }
+}
+
 /// types the generator must not produce (writer rejects them by design / documented gaps)
 fn type_ok(dt: &DataType, top: bool) -> bool {
+    if known_defect(dt) && std::env::var_os("C05_KNOWN").is_none() {
+        return false;
+    }
     match dt {
         DataType::Struct(fs) => !fs.is_empty() && fs.iter().all(|f| type_ok(f.data_type(), false)),
         DataType::List(f) | DataType::LargeList(f) | DataType::ListView(f) | DataType::LargeListView(f) | DataType::FixedSizeList(f, _) => type_ok(f.data_type(), false),
@@ -2303,8 +2330,13 @@ pub fn gen_e2e(rng: &mut Rng, thorough: bool) -> (String, String) {
     let stats = *rng.pick(&["none", "chunk", "page", "page"]);
     let bloom = if rng.chance(1, 4) { 1 + rng.usize(100) } else { 0 };
     let cdc = if par == 0 && rng.chance(1, 6) {
-        let min = 1 + rng.usize(64);
-        format!("{}:{}:{}", min, min + 1 + rng.usize(256), rng.range(-3, 3))
+        // `calculate_mask`: floor(log2(((max-min)/2)/8)) - norm must lie in 1..=63
+        let min = 1 + rng.usize(64) as i64;
+        let max = min + 64 + rng.usize(4000) as i64;
+        let target = (min + (max - min) / 2 - min) / 8;
+        let mask_bits = 63 - (target as u64).leading_zeros() as i64;
+        let norm = rng.range(-3, 3).min(mask_bits - 1);
+        format!("{}:{}:{}", min, max, norm)
     } else {
         "0".to_string()
     };
